@@ -14,6 +14,7 @@ import Mitx.Driver.MathArray
 import Mitx.Driver.Sampling
 import Mitx.Driver.Domain
 import Mitx.Driver.Schema
+import Mitx.Driver.Globals
 open Lean
 
 def dispatch (op : String) (j : Json) : Except String Json :=
@@ -22,6 +23,8 @@ def dispatch (op : String) (j : Json) : Except String Json :=
   | "sched" => Drv.sched j
   | "parse" => Drv.parse j
   | "call_hist" => Drv.callHist j
+  | "coerce" => Drv.coerceOp j
+  | "np_hist" => Drv.npHist j
   | "string_clean" => Drv.stringClean j
   | "string_check" => Drv.stringCheck j
   | "check" => Drv.gradeCheck j
